@@ -100,7 +100,20 @@ def native_precompiled(w=None, only_modes=None):
                 for mode in (only_modes or (None, "deflated", "stored")):
                     target = os.path.join(tmp, f"s{si}_{async_mode}_{mode}" + ("" if mode is None else ".zip"))
                     log = []
-                    src_env.compile_templates(target, zip=mode, log_function=log.append, ignore_errors=True)
+                    try:
+                        src_env.compile_templates(target, zip=mode, log_function=log.append, ignore_errors=True)
+                    except Exception as ex:
+                        problems.append(f"set {si} zip={mode}: compile_templates(ignore_errors=True) raised {type(ex).__name__}: {ex}")
+                        continue
+                    if "broken" in templates:
+                        # with ignore_errors=False the syntax error must abort the compilation
+                        try:
+                            src_env.compile_templates(target + ".strict", zip=mode, log_function=log.append, ignore_errors=False)
+                            problems.append(f"set {si} zip={mode}: compile_templates(ignore_errors=False) swallowed the syntax error of 'broken'")
+                        except TemplateSyntaxError:
+                            pass
+                        except Exception as ex:
+                            problems.append(f"set {si} zip={mode}: compile_templates(ignore_errors=False) raised {type(ex).__name__}")
                     mod_env = Environment(loader=ModuleLoader(target), enable_async=async_mode)
                     for name in templates:
                         for data in datas:
@@ -123,12 +136,16 @@ def native_precompiled(w=None, only_modes=None):
                         if name == "broken":
                             continue
                         want = src_env.compile(source, name, name, raw=True, defer_init=True)
-                        fn = ModuleLoader.get_module_filename(name)
-                        if mode is None:
-                            got = open(os.path.join(target, fn), "rb").read().decode("utf8")
-                        else:
-                            with zipfile.ZipFile(target) as z:
-                                got = z.read(fn).decode("utf8")
+                        fn = "tmpl_" + hashlib.sha1(name.encode("utf-8")).hexdigest() + ".py"
+                        try:
+                            if mode is None:
+                                got = open(os.path.join(target, fn), "rb").read().decode("utf8")
+                            else:
+                                with zipfile.ZipFile(target) as z:
+                                    got = z.read(fn).decode("utf8")
+                        except (OSError, KeyError) as ex:
+                            problems.append(f"set {si} {name!r} zip={mode}: no file {fn} in the store ({type(ex).__name__})")
+                            continue
                         if got != want:
                             problems.append(f"set {si} {name!r} zip={mode}: stored text differs from compile(raw=True, defer_init=True)")
     finally:
@@ -137,8 +154,17 @@ def native_precompiled(w=None, only_modes=None):
 
 
 def replay_native(w=None):
-    problems, n = native_precompiled()
+    problems, n = _native_safe()
     return (bool(problems), "; ".join(problems[:3]) or f"{n} renders agree between source and precompiled stores")
+
+
+def _native_safe():
+    try:
+        return native_precompiled()
+    except Exception as ex:  # the store could not even be read back
+        import traceback
+        tb = traceback.extract_tb(ex.__traceback__)[-1]
+        return [f"precompiled store unusable: {type(ex).__name__}: {ex} (at {tb.name}:{tb.lineno})"], 0
 
 
 def standin(task, tier, seed):
@@ -148,7 +174,7 @@ def standin(task, tier, seed):
                        "recursive loops, autoescape, non-ASCII template name, one template with a syntax error) x {sync, async} x "
                        "{directory, deflated zip, stored zip} x 2 data assignments; oracle: same output or same exception class as from source; "
                        "stored text == compile(raw=True, defer_init=True)")
-    problems, n = native_precompiled()
+    problems, n = _native_safe()
     task.stats = {"renders": n, "seconds": round(time.time() - t0, 2)}
     if problems:
         return [Res("C31.native.sets", "refuted", "native", time.time() - t0, "; ".join(problems[:3])[:700], "bounded", witness={"problems": problems[:5]})]
@@ -477,6 +503,10 @@ class CompileTemplates(VC):
         I.specs["jinja2.loaders:ModuleLoader.get_module_filename"] = A.abstract_fn("get_module_filename", returns="str")
         I.specs[("fn", id(L.ModuleLoader.get_module_filename))] = I.specs["jinja2.loaders:ModuleLoader.get_module_filename"]
         I.specs["ModuleLoader.get_module_filename"] = I.specs["jinja2.loaders:ModuleLoader.get_module_filename"]
+        # any other way of naming the file is a contract violation (the loader imports get_template_key(name) + ".py")
+        I.specs["jinja2.loaders:ModuleLoader.get_template_key"] = A.abstract_fn("get_template_key", returns="str")
+        I.specs[("fn", id(L.ModuleLoader.get_template_key))] = I.specs["jinja2.loaders:ModuleLoader.get_template_key"]
+        I.specs["ModuleLoader.get_template_key"] = I.specs["jinja2.loaders:ModuleLoader.get_template_key"]
 
         def zipfile_ctor(I_, st, args, kwargs, node):
             r = A.obj(st, _AbsZip, "zip_file")
@@ -592,7 +622,7 @@ class CompileTemplates(VC):
             if not (list(c.args[1:]) == [source, self.names[i], filename, True, True] and not c.kwargs) and not (
                     list(c.args[1:4]) == [source, self.names[i], filename] and dict(zip(["raw", "defer_init"], c.args[4:]), **c.kwargs) == {"raw": True, "defer_init": True}):
                 return False
-            writes = [e for e in rest[1:] if e.name in ("writestr", "file.write", "open", "ZipInfo", "get_module_filename", "file.__enter__", "file.__exit__")]
+            writes = [e for e in rest[1:] if e.name in ("writestr", "file.write", "open", "ZipInfo", "get_module_filename", "get_template_key", "file.__enter__", "file.__exit__")]
             if isinstance(c.result, Exc):
                 if writes:
                     return False
